@@ -141,7 +141,7 @@ def c04_witness(ctx):
     impl = core.run_impl([c.req for c in cases])
     for c, a in zip(cases, impl):
         why = (c.oracle(a) if c.oracle else (None if a == c.expect else 'leaper table entry differs from the step pattern'))
-        if a in ('PANIC', 'CRASH'):
+        if a in ('PANIC', 'CRASH', 'HANG'):
             why = 'panic'
         if why:
             return {'input': c.req, 'impl_output': a, 'why': why, 'stream': c.stream}
@@ -1064,7 +1064,7 @@ PROPS = {
                           'Inkayaku.C10.terminal_ignores_clock'],
                 cases=c10_history_cases,
                 anchors=['engine_core/src/engine/zobrist_history.rs', 'engine_core/src/engine/search.rs', 'engine_core/src/engine/heuristic.rs']),
-    'C11': dict(modules=['Inkayaku.Props.C11'], theorems=['Inkayaku.C11.black_tables_mirror', 'Inkayaku.C11.tables_shape', 'Inkayaku.C11.eval_flip', 'Inkayaku.C11.gameStage_flip', 'Inkayaku.C11.isCurrentInCheck_flip', 'Inkayaku.C11.evaluate_flip', 'Inkayaku.C11.evaluate_flip_wf', 'Inkayaku.C11.evaluate_flip_mover', 'Inkayaku.C11.terminal_sign', 'Inkayaku.C11.checkmate_sign', 'Inkayaku.C11.stalemate_draw', 'Inkayaku.C11.nearer_mate_better', 'Inkayaku.C11.score_mate_white', 'Inkayaku.C11.score_mate_black', 'Inkayaku.C11.score_mated_white', 'Inkayaku.C11.score_mated_black', 'Inkayaku.C11.score_cp', 'Inkayaku.C11.score_mate_leaf', 'Inkayaku.C11.score_mated_leaf', 'Inkayaku.C11.mate_score_flip'],
+    'C11': dict(modules=['Inkayaku.Props.C11', 'Inkayaku.Props.C11Search'], theorems=['Inkayaku.C11Search.' + n for n in 'wf_flipBoard abs_flipBoard legal_moves_flip captures_flip horizon_flip terminal_flip specValue_flip_nv specValue_flip_raw specScore_flip search_flip'.split()] + ['Inkayaku.C11.black_tables_mirror', 'Inkayaku.C11.tables_shape', 'Inkayaku.C11.eval_flip', 'Inkayaku.C11.gameStage_flip', 'Inkayaku.C11.isCurrentInCheck_flip', 'Inkayaku.C11.evaluate_flip', 'Inkayaku.C11.evaluate_flip_wf', 'Inkayaku.C11.evaluate_flip_mover', 'Inkayaku.C11.terminal_sign', 'Inkayaku.C11.checkmate_sign', 'Inkayaku.C11.stalemate_draw', 'Inkayaku.C11.nearer_mate_better', 'Inkayaku.C11.score_mate_white', 'Inkayaku.C11.score_mate_black', 'Inkayaku.C11.score_mated_white', 'Inkayaku.C11.score_mated_black', 'Inkayaku.C11.score_cp', 'Inkayaku.C11.score_mate_leaf', 'Inkayaku.C11.score_mated_leaf', 'Inkayaku.C11.mate_score_flip'],
                 cases=c11_cases, post=c11_post,
                 anchors=['engine_core/src/engine/heuristic.rs', 'engine_core/src/engine/heuristic/simple.rs', 'engine_core/src/engine/search.rs']),
     'C12': dict(modules=['Inkayaku.Props.C12'], theorems=['Inkayaku.C12.wf_repr', 'Inkayaku.C12.print_parse_board', 'Inkayaku.C12.print_parse_legal', 'Inkayaku.C12.decode_correct', 'Inkayaku.C12.decode_correct_four', 'Inkayaku.C12.decode_then_print', 'Inkayaku.C12.four_field_defaults', 'Inkayaku.C12.parse_print_canonical', 'Inkayaku.C12.parse_print_same', 'Inkayaku.C12.parse_print_four', 'Inkayaku.C12.reject_field_count', 'Inkayaku.C12.reject_illegal_char', 'Inkayaku.C12.reject_rank_sum', 'Inkayaku.C12.reject_adjacent_digits', 'Inkayaku.C12.reject_bad_side', 'Inkayaku.C12.reject_bad_castling', 'Inkayaku.C12.reject_bad_ep', 'Inkayaku.C12.reject_bad_clock', 'Inkayaku.C12.parse_no_panic_branch'], cases=c12_cases, anchors=['core/src/fen.rs', 'board/src/board.rs']),
